@@ -34,7 +34,7 @@ class HostileInterrupt(BaseException):
 
 
 def bounds(tier):
-    return {'programs': len(progs.CORPUS), 'kinds': KINDS, 'faults': 'every seam call of the rich configuration x {Exception, BaseException}' +
+    return {'programs': len(progs.names()) if tier == 'quick' else '%d corpus + grammar-generated (main <= 3 statements, callee <= 2, de-duplicated by event signature)' % len(progs.names()), 'kinds': KINDS, 'faults': 'every seam call of the rich configuration x {Exception, BaseException}' +
             ('' if tier == 'quick' else ' + all pairs')}
 
 
@@ -52,6 +52,14 @@ def cases(tier, seed):
             out.append({'k': 'faults', 'prog': name, 'loc': ['line', ln]})
         for fn in fns:
             out.append({'k': 'faults', 'prog': name, 'loc': ['fn', fn]})
+    if tier != 'quick':
+        # every program of the statement grammar (de-duplicated by event signature) x every placement x every kind
+        for name in progs.generated():
+            lo = progs.load(name)
+            for ln in progs.executable_lines(lo.code):
+                out.append({'k': 'place', 'prog': name, 'loc': ['line', ln]})
+            for fn in progs.function_names(lo.code):
+                out.append({'k': 'place', 'prog': name, 'loc': ['fn', fn]})
     return out
 
 
@@ -252,6 +260,8 @@ def compare(ctx, base, obs, label, case, feat):
 
 def run_case(ctx, desc):
     name, loc = desc['prog'], tuple(desc['loc'])
+    if name.startswith('g') and name[1:].isdigit():
+        progs.generated()
     base = bare(name)
     if desc['k'] == 'place':
         kinds = [desc['kind']] if 'kind' in desc else KINDS
